@@ -621,3 +621,29 @@ def c02_8(ctx: Ctx) -> RuleResult:
         i.rule = "C02.8"
     r.rule, r.title = "C02.8", "perturbations are confined to the free variables of each sampler (mask & (samplers == idx))"
     return r
+
+
+@rule(P)
+def c02_9(ctx: Ctx) -> RuleResult:
+    """Shared with C03.1: failure detection reads objective column 0 only, so a NaN anywhere in a
+    realization's objectives or constraints has to be propagated to the whole row first."""
+    from .c03 import c03_1
+
+    r = c03_1(ctx)
+    for i in r.instances:
+        i.rule = "C02.9"
+    r.rule, r.title = "C02.9", "a realization that fails in any function (objective or constraint) is failed for the gradient: its NaN is propagated to the column the failure flags are read from"
+    return r
+
+
+@rule(P)
+def c02_10(ctx: Ctx) -> RuleResult:
+    """Shared with C07.5: the ensemble-level function cache (consumed under an exact point test, stored whenever
+    the functions-only path ran, cleared before a combined evaluation)."""
+    from .c07 import c07_5
+
+    r = c07_5(ctx)
+    for i in r.instances:
+        i.rule = "C02.10"
+    r.rule, r.title = "C02.10", "the function values a gradient is differenced against are those of the requested point: the cached function result is reused only for exactly that point"
+    return r
